@@ -39,6 +39,8 @@ pub struct Mask {
     setup: Vec<Op>,
     pending: Vec<Op>,
     partial_mask: u64,
+    /// (Columnar) rows of the floating point table `tf` (0 = no such table in this run)
+    float_rows: usize,
 }
 
 pub const JOIN_SITES: [u32; 6] = [site::JOIN_REORDER, site::HASH_JOIN, site::SUBQUERY_REWRITE, site::SUBQUERY_TO_JOIN, site::IN_SUBQUERY_INDEX, site::INDEX_SCAN];
@@ -101,13 +103,15 @@ impl Mask {
         let n = 1 + rng.usize(3);
         for _ in 0..n {
             let c = &rng.pick(&ints).name;
+            // COUNT / MIN / MAX are defined for every column type (strings too)
+            let any = &rng.pick(&def.cols).name;
             aggs.push(match rng.below(8) {
                 0 => "COUNT(*)".to_string(),
-                1 => format!("COUNT({})", c),
+                1 => format!("COUNT({})", any),
                 2 => format!("SUM({})", c),
                 3 => format!("AVG({})", c),
-                4 => format!("MIN({})", c),
-                5 => format!("MAX({})", c),
+                4 => format!("MIN({})", any),
+                5 => format!("MAX({})", any),
                 6 => format!("SUM({} * {})", c, rng.pick(&ints).name),
                 _ => format!("SUM({} + {})", c, rng.range(0, 3)),
             });
@@ -336,7 +340,11 @@ impl Mask {
         let (vn, q) = *rng.pick(&views);
         let lit = rng.range(-1, self.sw.domain + 1);
         let names = self.world.table_names();
-        let outer = match rng.below(7) {
+        let outer = match rng.below(10) {
+            // unqualified column references under an alias, with ORDER BY / DISTINCT on top
+            7 => format!("SELECT a, b FROM {{SRC}} v WHERE a {} {} ORDER BY a, b", rng.pick(&Cmp::ALL).sql(), lit),
+            8 => format!("SELECT DISTINCT a FROM {{SRC}} v WHERE a {} {}", rng.pick(&Cmp::ALL).sql(), lit),
+            9 => format!("SELECT a, b FROM {{SRC}} v WHERE a BETWEEN {} AND {} ORDER BY b, a", lit - 2, lit + 2),
             0 => "SELECT v.a, v.b FROM {SRC} v".to_string(),
             1 => format!("SELECT v.a, v.b FROM {{SRC}} v WHERE v.a {} {}", rng.pick(&Cmp::ALL).sql(), lit),
             2 => format!("SELECT v.b FROM {{SRC}} v WHERE v.a = {} OR v.a IS NULL", lit),
@@ -380,10 +388,15 @@ impl Mask {
                 let def = &self.world.tables[&big];
                 let k = &def.cols[def.pk.first().copied().unwrap_or(0)].name;
                 let lim = rng.range(0, self.sw.big_rows as i64);
-                let sql = match rng.below(3) {
+                let cyc = def.cols.iter().enumerate().find(|(i, c)| c.ty == Ty::Int && !def.pk.contains(i)).map(|(_, c)| c.name.clone());
+                let sql = match (rng.below(5), cyc) {
+                    (3, Some(c)) => format!("SELECT x.{k}, y.{k} FROM {big} x, {big} y WHERE x.{c} = y.{c} AND x.{k} < {lim}"),
+                    (4, Some(c)) => format!("SELECT COUNT(*), SUM(x.{k}), SUM(y.{k}) FROM {big} x INNER JOIN {big} y ON x.{c} = y.{c}"),
+                    (n, _) => match n % 3 {
                     0 => format!("SELECT x.{k}, y.{k} FROM {big} x, {big} y WHERE x.{k} = y.{k} AND x.{k} < {lim}"),
                     1 => format!("SELECT x.{k}, y.{k} FROM {big} x INNER JOIN {big} y ON x.{k} = y.{k} WHERE y.{k} >= {lim}"),
                     _ => format!("SELECT COUNT(*) FROM {big} x, {big} y WHERE x.{k} = y.{k}"),
+                    },
                 };
                 let mut op = Op::new(Kind::Probe, sql);
                 op.name = Some("big_self_hash_join".into());
@@ -411,7 +424,7 @@ impl Scenario for Mask {
         verif::set_skip_mask(0);
         verif::set_parallel_config(Some(3));
         verif::reset_hits();
-        Mask { mode, sut: Sut::new(), world: World::default(), sw: sw.clone(), setup: Vec::new(), pending: Vec::new(), partial_mask: 0 }
+        Mask { mode, sut: Sut::new(), world: World::default(), sw: sw.clone(), setup: Vec::new(), pending: Vec::new(), partial_mask: 0, float_rows: 0 }
     }
 
     fn next_op(&mut self, rng: &mut Rng, _cx: &mut Ctx) -> Option<Op> {
@@ -458,6 +471,9 @@ impl Scenario for Mask {
                     while left > 0 {
                         let k = left.min(400);
                         let mut op = gen_bulk_insert(rng, &self.sw, &d2, start, k);
+                        // (Parallel) a join column whose values cycle with period 1000: distinct inside one
+                        // build partition, repeated across partitions
+                        let cyc = if self.mode == Mode::Parallel { d2.cols.iter().enumerate().position(|(i, c)| c.ty == Ty::Int && !d2.pk.contains(&i)) } else { None };
                         for (ri, row) in op.rows.iter_mut().enumerate() {
                             let pos = start as usize + ri;
                             for (ci, (from, to)) in sparse.iter().enumerate() {
@@ -465,12 +481,61 @@ impl Scenario for Mask {
                                     row[ci] = Lit::Null;
                                 }
                             }
+                            if let Some(ci) = cyc {
+                                row[ci] = Lit::Int((pos % 1000) as i64);
+                            }
                         }
                         let op = Op::insert(&d2.name, &[], op.rows);
                         self.setup.push(op);
                         start += k as i64;
                         left -= k;
                     }
+                }
+            }
+            if self.mode == Mode::Columnar && self.sw.max_rows_stmt == 5 {
+                // floating point kernels (one run in 6): DOUBLE PRECISION / NUMERIC columns, row counts at and
+                // around the SIMD batch size; values are multiples of 0.25, so sums are exact in any order
+                let n = *rng.pick(&[1024usize, 2048, 1000, 1100, 1025, 3072]);
+                self.float_rows = n;
+                self.setup.push(Op::new(Kind::Other, "CREATE TABLE tf (id INTEGER, x DOUBLE PRECISION, y NUMERIC(12,2), r REAL, s VARCHAR(12), d DATE, b BOOLEAN, e DOUBLE PRECISION)".into()));
+                let with_nulls = rng.chance(1, 3);
+                // every value and every partial sum is exact in f64, so the order of summation cannot matter;
+                // a third of the x values is not representable in f32
+                // column e is only ever compared with integer literals: half-way between them with the guard of
+                // known finding C03-columnar-filter-epsilon, 2^-31 above one without it
+                let far = self.sw.guard("c03_no_near_equal_literals");
+                let mut i = 0usize;
+                while i < n {
+                    let k = (n - i).min(256);
+                    let rows: Vec<String> = (i..i + k)
+                        .map(|j| {
+                            let null = with_nulls && j % 97 == 5;
+                            let x = if null {
+                                "NULL".to_string()
+                            } else if j % 3 != 0 {
+                                format!("{:.1}", (j as f64) * 0.5 - 100.0)
+                            } else {
+                                // exact in f64 (as is every partial sum, in any order), not representable in f32
+                                format!("{:.1}", (j as f64) * 0.5 + 33554432.0)
+                            };
+                            // values in table order are neither ascending nor descending
+                            let h = (j * 7919) % 1013;
+                            let (r, sv, d, b) = if with_nulls && j % 89 == 7 {
+                                ("NULL".to_string(), "NULL".to_string(), "NULL".to_string(), "NULL")
+                            } else {
+                                (
+                                    format!("{:.2}", (h as f64) * 0.25 - 50.0),
+                                    format!("'w{:04}'", h),
+                                    format!("DATE '{:04}-{:02}-{:02}'", 1990 + h % 40, 1 + h % 12, 1 + h % 28),
+                                    if h % 5 < 2 { "TRUE" } else { "FALSE" },
+                                )
+                            };
+                            let e = if far || j % 3 != 0 { format!("{}.5", j % 64) } else { format!("{}.000000000465661287307739257812", j % 64) };
+                            format!("({}, {}, {:.2}, {}, {}, {}, {}, {})", j + 1, x, (((j * 31) % 50) as f64) + 0.25, r, sv, d, b, e)
+                        })
+                        .collect();
+                    self.setup.push(Op::new(Kind::Other, format!("INSERT INTO tf VALUES {}", rows.join(", "))));
+                    i += k;
                 }
             }
             self.setup.reverse();
@@ -492,6 +557,46 @@ impl Scenario for Mask {
         }
         if let Some(p) = self.pending.pop() {
             return Some(p);
+        }
+        if self.float_rows > 0 && rng.chance(1, 3) {
+            let n = self.float_rows as i64;
+            let c = *rng.pick(&["x", "y", "r"]);
+            let o = *rng.pick(&["s", "d", "b", "r", "x"]);
+            let w = match rng.below(7) {
+                0 => String::new(),
+                1 => format!(" WHERE id BETWEEN 1 AND {}", 1024 * rng.range(1, 3)),
+                2 => format!(" WHERE id <= {}", rng.range(0, n + 1)),
+                3 => format!(" WHERE id > {} AND id <= {}", rng.range(0, 30), 1024 + rng.range(0, 30)),
+                // a float column against an integer literal and against a decimal literal (never closer
+                // than 0.05 to a stored value unless equal)
+                4 => format!(" WHERE {} >= {}", c, rng.range(-100, 300)),
+                5 => format!(" WHERE {} {} {}.125", c, rng.pick(&["<", "<=", ">", ">="]), rng.range(-50, 200)),
+                _ => format!(" WHERE id > {} AND {} < {}", rng.range(0, n), c, rng.range(-100, 300)),
+            };
+            if rng.chance(1, 6) {
+                let k = rng.range(0, 64);
+                let w = match rng.below(4) {
+                    0 => format!("e = {}", k),
+                    1 => format!("e <> {}", k),
+                    2 => format!("e BETWEEN {} AND {}", k, k + rng.range(0, 3)),
+                    _ => format!("e {} {}", rng.pick(&["<", "<=", ">", ">="]), k),
+                };
+                let mut op = Op::new(Kind::Probe, format!("SELECT COUNT(*), MIN(id), MAX(id) FROM tf WHERE {}", w));
+                op.name = Some("float_filter".into());
+                return Some(op);
+            }
+            let sel = match rng.below(7) {
+                0 => format!("SUM({c}), AVG({c}), MIN({c}), MAX({c}), COUNT(*)"),
+                1 => format!("SUM({c}), COUNT({c})"),
+                2 => format!("MIN({c}), MAX({c})"),
+                3 => format!("AVG({c})"),
+                4 => format!("MIN({o}), MAX({o}), COUNT({o})"),
+                5 => format!("MAX({o}), COUNT(*), SUM({c})"),
+                _ => "*, COUNT(*)".to_string(),
+            };
+            let mut op = Op::new(Kind::Probe, format!("SELECT {} FROM tf{}", sel, w));
+            op.name = Some("float_aggregates".into());
+            return Some(op);
         }
         if self.mode == Mode::Views && (self.world.views.is_empty() || rng.chance(1, 6)) {
             if self.world.views.len() >= 3 && rng.chance(1, 2) {
@@ -568,6 +673,15 @@ impl Scenario for Mask {
                     if let Some(v) = n.strip_prefix("partial_mask=") {
                         self.partial_mask = v.parse().unwrap_or(0);
                     }
+                }
+                if !op.sql.is_empty() {
+                    // raw setup statement (tables the generator's own types cannot describe)
+                    let out = self.sut.exec(&op.sql);
+                    cx.log.str(out.class());
+                    if !out.is_ok() {
+                        return Step::EndForeign("raw_setup_statement_failed".into());
+                    }
+                    cx.state_changes += 1;
                 }
                 Step::Continue
             }
